@@ -153,6 +153,15 @@ pub(super) fn encode_publish(
     dst: &mut BytePages,
     content_size: u32,
 ) -> Result<(), EncodeError> {
+    // validate before anything is written, a failed encode must not leave bytes behind
+    if publish.qos == QoS::AtMostOnce {
+        if publish.packet_id.is_some() {
+            return Err(EncodeError::MalformedPacket); // packet id must not be set
+        }
+    } else if publish.packet_id.is_none() {
+        return Err(EncodeError::PacketIdRequired);
+    }
+
     dst.put_u8(
         packet_type::PUBLISH_START
             | (u8::from(publish.qos) << 1)
@@ -161,12 +170,8 @@ pub(super) fn encode_publish(
     );
     write_variable_length(content_size, dst);
     publish.topic.encode(dst)?;
-    if publish.qos == QoS::AtMostOnce {
-        if publish.packet_id.is_some() {
-            return Err(EncodeError::MalformedPacket); // packet id must not be set
-        }
-    } else {
-        publish.packet_id.ok_or(EncodeError::PacketIdRequired)?.encode(dst)?;
+    if let Some(packet_id) = publish.packet_id {
+        packet_id.encode(dst)?;
     }
     Ok(())
 }
